@@ -21,6 +21,26 @@ type c05Case struct {
 	Sp    gen.Spelling `json:"spelling"`
 	In    ref.OCRAIn   `json:"in"`   // admissible contents of the selected fields
 	Junk  ref.OCRAIn   `json:"junk"` // contents put into the unselected fields for the second call
+	// Spare > 0: every field is handed over as a prefix of a larger array whose spare capacity
+	// (Spare bytes behind the length) is filled with non-zero bytes — padding must still be zeros.
+	Spare int `json:"spare"`
+}
+
+// withSpare returns a slice equal to b whose backing array continues with n garbage bytes.
+func withSpare(b []byte, n int) []byte {
+	if b == nil || n <= 0 {
+		return b
+	}
+	arr := make([]byte, len(b)+n)
+	copy(arr, b)
+	for i := len(b); i < len(arr); i++ {
+		arr[i] = 0xEE - byte(i)
+	}
+	return arr[:len(b)]
+}
+
+func spareIn(in ref.OCRAIn, n int) otp.OCRAInput {
+	return otp.OCRAInput{Counter: withSpare(in.C, n), Challenge: withSpare(in.Q, n), Password: withSpare(in.P, n), SessionInfo: withSpare(in.S, n), Timestamp: withSpare(in.T, n)}
 }
 
 func checkC05(c c05Case) verdict {
@@ -62,13 +82,19 @@ func checkC05(c c05Case) verdict {
 		labels = append(labels, "msg>256")
 	}
 	nt := (cfg.Q && len(c.In.Q) < 128) || cfg.S || fieldCount(cfg) >= 3 || (cfg.Digits != 6 && cfg.Digits != 8) || !rfcVectorSuites[cfg.Raw]
-	got, err := otp.GenerateOCRA(secret, suite, toLibIn(c.In))
+	if c.Spare > 0 {
+		labels = append(labels, "spare-capacity")
+	}
+	got, err := otp.GenerateOCRA(secret, suite, spareIn(c.In, c.Spare))
 	if err != nil || got != want {
 		return bad(nt, labels, "GenerateOCRA(suite %q via %s, cfg %+v, in %x) = %q, %v; RFC 6287 value is %q", cfg.Raw, c.Suite.Via, cfg, c.In, got, err, want)
 	}
+	if e := retainCheck(got, "OCRA code"); e != nil {
+		return bad(true, labels, "%v", e)
+	}
 	// unselected fields have no influence
 	for i, alt := range []ref.OCRAIn{overlay(cfg, c.In, c.Junk), overlay(cfg, c.In, ref.OCRAIn{})} {
-		g2, e2 := otp.GenerateOCRA(secret, suite, toLibIn(alt))
+		g2, e2 := otp.GenerateOCRA(secret, suite, spareIn(alt, c.Spare))
 		if e2 != nil || g2 != want {
 			return bad(true, append(labels, "unselected-garbage"), "GenerateOCRA changes with unselected fields (variant %d: %x): %q, %v; want %q", i, alt, g2, e2, want)
 		}
@@ -77,7 +103,7 @@ func checkC05(c c05Case) verdict {
 }
 
 var c05Main = newPart("C05", "main",
-	"rapid: suite from {45 registered names, well-formed grammar strings the parser accepts, hand-built SuiteConfig over hash x digits 4..10 x every subset of {C,Q,P,S,T} x formats x password hashes with arbitrary Raw text passed as SuiteConfig / RawSuite{} / NewSuite} x secret (C01 keys, spellings) x admissible inputs with boundary lengths (challenge min..128, session 0..128 incl. nil) ; oracle: independent RFC 6287 message builder + HMAC + truncation; metamorphic: arbitrary junk and nil in unselected fields leave the code unchanged; non-trivial = challenge < 128 bytes or session selected or >= 3 fields or digits not in {6,8} or suite not one of the five RFC-vector suites",
+	"rapid: suite from {45 registered names, well-formed grammar strings the parser accepts, hand-built SuiteConfig over hash x digits 4..10 x every subset of {C,Q,P,S,T} x formats x password hashes with arbitrary Raw text passed as SuiteConfig / RawSuite{} / NewSuite} x secret (C01 keys, spellings) x admissible inputs with boundary lengths (challenge min..128, session 0..128 incl. nil) ; oracle: independent RFC 6287 message builder + HMAC + truncation; one case in three hands every field over as a prefix of a larger array with non-zero spare capacity (padding must be zeros, not the caller's memory behind the length); metamorphic: arbitrary junk and nil in unselected fields leave the code unchanged; non-trivial = challenge < 128 bytes or session selected or >= 3 fields or digits not in {6,8} or suite not one of the five RFC-vector suites",
 	checkC05)
 
 func genC05(t *rapid.T) c05Case {
@@ -85,6 +111,9 @@ func genC05(t *rapid.T) c05Case {
 	_, cfg, _ := c.Suite.resolve()
 	c.In = drawAdmissible(t, cfg)
 	c.Junk = drawJunk(t)
+	if rapid.IntRange(0, 2).Draw(t, "spareK") == 0 {
+		c.Spare = rapid.SampledFrom([]int{1, 8, 120, 128, 200}).Draw(t, "spare")
+	}
 	return c
 }
 
@@ -133,7 +162,7 @@ func TestC05_Registered(t *testing.T) {
 				in.T = fill(8, byte(0xf8+v))
 			}
 			c05Reg.each(t, c05Case{Suite: suiteSpec{Via: "registered", Name: name}, Key: fill(20+v*20, 1), Sp: gen.Spelling{Pad: 1}, In: in,
-				Junk: ref.OCRAIn{C: fill(3, 1), Q: fill(200, 2), P: fill(5, 3), S: fill(300, 4), T: fill(9, 5)}})
+				Junk: ref.OCRAIn{C: fill(3, 1), Q: fill(200, 2), P: fill(5, 3), S: fill(300, 4), T: fill(9, 5)}, Spare: []int{0, 130, 0, 7, 0, 200}[v]})
 		}
 	}
 	c05Reg.rec().Exhaustive()
